@@ -263,7 +263,22 @@ class C20:
         if (index // len(FORMATS)) % 12 == 11 and fmt != "json5":   # (the pure-Python json5 parser needs ~10 s per 100 KB)
             return self._gen_large_case(st, fmt)
         text, other = self._gen_doc(w, fmt), self._gen_doc(w, fmt)
-        data = text.encode("utf-8")
+        enc = "utf-8"
+        if fmt in ("xml", "html"):
+            # documents in another legal encoding (declared, resp. with a byte-order mark): what the parser decodes
+            # by itself is not UTF-8 for anything else that reads the file.  A stream of its own keeps earlier cases.
+            es = st["encoding"]
+            r = es.random()
+            if r < 0.3:
+                cand = "iso-8859-1" if r < 0.2 else "utf-16"
+                body = text.split("?>", 1)[1].lstrip("\n") if text.startswith("<?xml") else text
+                t2 = f'<?xml version="1.0" encoding="{cand.upper()}"?>\n<!-- caf\xe9 \xfc\xdf -->\n' + body
+                try:
+                    t2.encode(cand)
+                    text, enc = t2, cand
+                except UnicodeEncodeError:
+                    pass
+        data = text.encode(enc)
 
         def cfg():
             return {"pos": fs.choice([1, 2]),
@@ -304,7 +319,7 @@ class C20:
             g2 = {k: v for k, v in b.items() if k not in ("pos", "spell", "status")}
             faults.append(dict(kind="seq", faults=[g2, g1] if g2["kind"] == "torn" else [g1, g2], **cfg()))
         fresh = sorted(env.sample(range(len(faults)), 3)) if env.random() < (0.25 if tier == "quick" else 0.1) else []
-        return {"fmt": fmt, "text": text, "other": other, "faults": faults,
+        return {"fmt": fmt, "text": text, "other": other, "faults": faults, "enc": enc,
                 "clock": env.choice(["frozen", "1ms", "0.2s", "3s", "3s", "1h"]), "fresh": fresh}
 
     def _gen_large_case(self, st, fmt):
@@ -432,7 +447,7 @@ class C20:
     def run_case(self, case):
         log = EventLog()
         fmt = case["fmt"]
-        data = case["text"].encode("utf-8")
+        data = case["text"].encode(case.get("enc", "utf-8"))
         counters = {}
         nts = []
 
@@ -449,6 +464,8 @@ class C20:
                 fh.write(case["other"].encode("utf-8"))
             if case.get("large"):
                 bump("probe.large_document")
+            if case.get("enc", "utf-8") != "utf-8":
+                bump("probe.non_utf8_document")
             # baseline: both files valid -> the command must work at all, else this document is outside C20
             base_from = os.path.join(d, "orig" + EXT[fmt])
             with open(base_from, "wb") as fh:
